@@ -10,10 +10,12 @@ META = dict(
 
 
 def harnesses(tier):
+    from contracts.movement import movement_harnesses
+    hs_m = movement_harnesses(tier)
     from contracts.linearfam import linear_harnesses
     hs_l = linear_harnesses(tier, modes=("inverse_of_forward", "accessors"))
     from contracts.coupling import coupling_harnesses
     hs_c = coupling_harnesses({"C02"}, tier, modes=("if",))
     from contracts.modules import transform_harness
     from contracts.elementwise import SPECS, FUNCTIONAL
-    return hs_l + hs_c + [transform_harness(SPECS[n], m, {"C02"}) for n in FUNCTIONAL for m in ("if", "fi")]
+    return hs_m + hs_l + hs_c + [transform_harness(SPECS[n], m, {"C02"}) for n in FUNCTIONAL for m in ("if", "fi")]
